@@ -26,6 +26,8 @@ func init() {
 		ruleV7(c, "C04.S9")
 		ruleF10(c, "C04.S10")
 		ruleT1(c, "C04.S11")
+		ruleA1(c, "C04.S12")
+		ruleK5(c, "C04.S13")
 	}
 }
 
